@@ -76,11 +76,16 @@ View(sl, kd, sc) == { k \in Names : Owned(k, sl, kd, sc) }
 Desired(pg, view) ==
   CASE pg = "none"    -> {}
     [] pg = "first"   -> {Slots[1]}
+    [] pg = "badlabel" -> {Slots[1]}      \* same answer, but the child's labels do not satisfy the parent's selector
     [] pg = "all"     -> Names
     [] pg = "ordinal" -> { k \in Names : \A j \in Names : Pos(j) < Pos(k) => j \in view }   \* child i only once child i-1 is observed
 Updatable(m) == m \in {"Recreate", "InPlace"}
 \* one whole sync (fresh cache)
-SyncFn(sl, kd, m, pg, sc) ==
+\* a desired child that would not match the selector is rejected before anything is written (C04): only the
+\* claim phase, which precedes the hook, has happened.  (With a generated selector the controller adds the
+\* matching label itself; decorators have no selector.)
+Rejected(kd, pg, gs) == pg = "badlabel" /\ kd = "composite" /\ ~gs
+SyncFn0(sl, kd, m, pg, sc) ==
   LET c    == Claimed(sl, kd, sc)
       view == View(c, kd, sc)
       des  == Desired(pg, view)
@@ -94,6 +99,7 @@ SyncFn(sl, kd, m, pg, sc) ==
                ELSE s                                                                       \* OnDelete / unset: left alone
         ELSE IF k \in des /\ ~s.live THEN S("P", TRUE, TRUE, TRUE, FALSE, kd = "decorator", "none")  \* create
         ELSE s]
+SyncFn(sl, kd, m, pg, sc) == SyncFn0(sl, kd, m, pg, sc)
 \* ---- fixpoint oracle (independent of the step function) ---------------------------------
 \* least fixpoint of D |-> Desired(D) reached from the owned set
 RECURSIVE FixFrom(_, _, _)
@@ -103,7 +109,8 @@ Fix(pg) == FixFrom(pg, {}, Len(Slots) + 1)
 \* that the parent cannot own: foreign-owned, non-matching orphan, or a released look-alike),
 \* and no child is stuck in deletion
 Occupied(sl, kd, sc, k) == LET s == Claimed(sl, kd, sc)[k] IN s.live /\ ~Owned(k, Claimed(sl, kd, sc), kd, sc)
-Precond(sl, kd, pg, sc) == /\ \A k \in Fix(pg) : ~Occupied(sl, kd, sc, k)
+Precond(sl, kd, pg, sc) == /\ pg # "badlabel"
+                           /\ \A k \in Fix(pg) : ~Occupied(sl, kd, sc, k)
                            /\ \A k \in Names : sl[k].live => ~sl[k].del
 AtFixS(sl, kd, m, pg, sc) ==
   /\ Claimed(sl, kd, sc) = sl                    \* nothing left to adopt or release
@@ -123,7 +130,7 @@ Init ==
   /\ nsync = 0 /\ wrote = TRUE /\ init0 = slots
 Sync ==
   /\ nsync < 8
-  /\ slots' = SyncFn(slots, kind, method, prog, scope)
+  /\ slots' = IF Rejected(kind, prog, gensel) THEN Claimed(slots, kind, scope) ELSE SyncFn(slots, kind, method, prog, scope)
   /\ wrote' = (slots' # slots)
   /\ nsync' = nsync + 1
   /\ UNCHANGED <<kind, method, prog, scope, gensel, lookalike, init0>>
